@@ -262,7 +262,7 @@ class Model:
     for ip, cn in self.insts.items():
       c = self.classes[cn]
       for b in c["blocks"]:
-        if b["kind"] == "comb": units.append((ip, "blk", b))
+        if b["kind"] in ("comb", "once"): units.append((ip, "blk", b))
       for dst, src in c["conns"]:
         units.append((ip, "conn", (dst, src)))
     for ip, p in self.implicit_conns:
@@ -303,8 +303,10 @@ class Model:
         bad = [k for k in st2 if st2[k] != self.state[k]]
         raise IRError(f"reference not confluent on {bad[:4]} (generator discipline broken)")
 
-  def tick(self):
-    self.eval_comb()
+  def tick(self, pre_eval=True):
+    # pre_eval=False models designs with update_once blocks: pymtl3's sim_tick then runs ff blocks,
+    # the flip and only afterwards the combinational schedule
+    if pre_eval: self.eval_comb()
     pre = dict(self.state)
     nxt = {}
     for ip, cn in self.insts.items():
